@@ -501,7 +501,15 @@ pub fn run_history(s: &Scenario, only: Option<u8>, trace: bool) -> RunOut {
                 last_ac = Some(*ac & 0x7f);
                 let frame = match catch_unwind(AssertUnwindSafe(|| Frame::from_bytes(&b.bytes))) {
                     Ok(Ok(f)) => f,
-                    _ => continue, // decoding is decided elsewhere
+                    _ => {
+                        // decoding is decided elsewhere - but a DF17 airborne position report that
+                        // never reaches the tracker leaves the published position behind the
+                        // aircraft: the pairing of "the most recent reports" needs them all
+                        if b.position.is_some() && b.bytes[0] >> 3 == 17 && *ac & 0x80 == 0 {
+                            out.fails.push(("C13/report_refused".into(), format!("the airborne position report {} (DF17, altitude code {:#05x}) is refused by the decoder and never reaches the tracker", bits::hex(&b.bytes), b.position.map(|p| p.1.alt_code).unwrap_or(0))));
+                        }
+                        continue;
+                    }
                 };
                 if trace {
                     out.steps.push(format!("{opi}: {} {:?}", bits::hex(&b.bytes), op));
@@ -563,6 +571,10 @@ pub fn run_history(s: &Scenario, only: Option<u8>, trace: bool) -> RunOut {
                 if let Some(k) = keep.iter().find(|k| !got.contains(k)) {
                     // C12's side of the same event: the tracked set shrank by an aircraft that had not expired
                     fails.push(("C12/removed_without_expiry".into(), format!("prune({t}) removed {k:06x}, which was heard {} s ago", model.recs.get(k).map(|r| r.age_half_s as f64 / 2.0).unwrap_or(0.0))));
+                    // C13's side: a published position disappears although nothing cleared the record
+                    if before["records"].get(format!("{k:06x}")).and_then(|r| r.get("position")).map(|p| !p.is_null()).unwrap_or(false) {
+                        fails.push(("C13/position_lost_without_clear".into(), format!("prune({t}) removed {k:06x} together with its published position although the aircraft was heard {} s ago", model.recs.get(k).map(|r| r.age_half_s as f64 / 2.0).unwrap_or(0.0))));
+                    }
                 }
                 if got != keep {
                     fails.push(("C15/prune_keys".into(), format!("prune({t}) left {:?}, expected {:?} (ages in s: {:?})", got.iter().map(|x| format!("{x:06x}")).collect::<Vec<_>>(), keep.iter().map(|x| format!("{x:06x}")).collect::<Vec<_>>(), before["records"].as_object().map(|o| o.keys().cloned().collect::<Vec<_>>()))));
